@@ -122,8 +122,8 @@ func runC10(c *fw.Ctx, idx int) fw.Result {
 		}
 		recs[0].Seq = string(b)
 	}
-	refText := gen.RefFasta("root", ref, gen.PickLineWidth(r, W))
-	aln := gen.RenderFasta(recs, gen.PickLineWidth(r, W))
+	refText := noFinalNL(r, gen.RefFasta("root", ref, gen.PickLineWidth(r, W)))
+	aln := noFinalNL(r, gen.RenderFasta(recs, gen.PickLineWidth(r, W)))
 	var exp strings.Builder
 	exp.WriteString("query,SNPs,ambiguities,SNPcount,ambcount\n")
 	flags := map[string]bool{}
